@@ -59,7 +59,40 @@ def is_sub(e, h):
   return False
 
 
+class Opt(object):
+  """kind of a value that is either None or of kind ``k`` (result of joining a literal None with a wire kind); it is
+  only kept in variable bindings and refined by ``x is None`` tests - every other use sees the degraded kind."""
+  __slots__ = ('k',)
+
+  def __init__(self, k):
+    self.k = k
+
+  def __eq__(self, other):
+    return isinstance(other, Opt) and other.k == self.k
+
+  def __ne__(self, other):
+    return not self.__eq__(other)
+
+  def __hash__(self):
+    return hash(('OPT', self.k))
+
+  def __repr__(self):
+    return 'OPT(%s)' % (self.k,)
+
+  __str__ = __repr__
+
+
+def degrade(k):
+  if k == 'NONE':
+    return 'TR'
+  if isinstance(k, Opt):
+    return 'WO' if is_wire(k.k) else 'TR'
+  return k
+
+
 def is_wire(k):
+  if isinstance(k, Opt):
+    return is_wire(k.k)
   if isinstance(k, tuple):
     return any(is_wire(x) for x in k[1:])
   return k in WIRE
@@ -72,6 +105,15 @@ def join(a, b):
     return b
   if b is None:
     return a
+  if a == 'NONE' or b == 'NONE' or isinstance(a, Opt) or isinstance(b, Opt):
+    ia = None if a == 'NONE' else (a.k if isinstance(a, Opt) else a)
+    ib = None if b == 'NONE' else (b.k if isinstance(b, Opt) else b)
+    inner = join(ia, ib)
+    if inner is None:
+      return 'NONE'
+    if isinstance(inner, tuple) or is_wire(inner):
+      return Opt(inner)
+    return inner
   if isinstance(a, tuple) and isinstance(b, tuple) and len(a) == len(b):
     return ('T',) + tuple(join(x, y) for x, y in zip(a[1:], b[1:]))
   if {a, b} == {'FF', 'F?'}:
@@ -115,6 +157,8 @@ class Effects(object):
     self.closers = []          # (fn, call)
     self.analysed = set()
     self._memo = {}
+    self._ret_memo = {}
+    self._rets = []
     self._stack = []
 
   # ------------------------------------------------------------ entry
@@ -140,10 +184,21 @@ class Effects(object):
         env[a.vararg.arg] = 'WARGS'
     if a.kwarg:
       env[a.kwarg.arg] = 'TR'
-    raised, _ = self.run(fn.body, env, fn)
+    self._rets.append(None)
+    raised, ft = self.run(fn.body, env, fn)
+    rk = self._rets.pop()
+    if ft:
+      rk = 'NONE' if rk is None else join(rk, 'NONE')
+    if any(isinstance(x, (ast.Yield, ast.YieldFrom)) for x in walk_no_nested(fn.node, include_self=False)):
+      rk = None          # a generator: the call returns an iterator, not what `return` says
+    self._ret_memo[key] = rk
     self._stack.pop()
     self._memo[key] = raised
     return raised
+
+  def return_kind(self, fn, kinds):
+    """kind of the value returned by ``fn`` for these argument kinds (after analyse()); None = not known."""
+    return self._ret_memo.get((fn.key, fn.variant, tuple(map(str, kinds))))
 
   # ------------------------------------------------------------ statements
   def run(self, stmts, env, fn):
@@ -162,7 +217,7 @@ class Effects(object):
       _, r = self.ev(s.value, env, fn)
       return r, True
     if isinstance(s, ast.Assign):
-      k, r = self.ev(s.value, env, fn)
+      k, r = self.ev(s.value, env, fn, keep_opt=True)
       R.extend(r)
       for t in s.targets:
         self.bind(t, k, env, R, s, fn)
@@ -179,9 +234,12 @@ class Effects(object):
         self.bind(s.target, k, env, R, s, fn)
       return R, True
     if isinstance(s, ast.Return):
+      k = 'NONE'
       if s.value is not None:
-        _, r = self.ev(s.value, env, fn)
+        k, r = self.ev(s.value, env, fn, keep_opt=True)
         R.extend(r)
+      if self._rets:
+        self._rets[-1] = k if self._rets[-1] is None else join(self._rets[-1], k)
       return R, False
     if isinstance(s, (ast.Continue, ast.Break)):
       return R, False
@@ -363,6 +421,24 @@ class Effects(object):
         for v in t.values:
           self.refine(v, {}, e_false)
       return
+    if isinstance(t, ast.Compare) and len(t.ops) == 1 and isinstance(t.ops[0], (ast.Is, ast.IsNot, ast.Eq, ast.NotEq)) and \
+       isinstance(t.left, ast.Name) and isinstance(t.comparators[0], ast.Constant) and t.comparators[0].value is None:
+      v = t.left.id
+      is_none_true = isinstance(t.ops[0], (ast.Is, ast.Eq)) != neg
+      yes, no = (e_true, e_false) if is_none_true else (e_false, e_true)     # yes: the value is None
+      cur = e_true.get(v, e_false.get(v))
+      if isinstance(cur, Opt):
+        yes[v] = 'NONE'
+        no[v] = cur.k
+      return
+    if isinstance(t, ast.Name) and isinstance(e_true.get(t.id, e_false.get(t.id)), Opt):
+      cur = e_true.get(t.id, e_false.get(t.id))
+      if isinstance(cur.k, tuple) and len(cur.k) > 1:
+        # a non-empty tuple is truthy: the falsy branch holds None
+        yes, no = (e_false, e_true) if neg else (e_true, e_false)
+        yes[t.id] = cur.k
+        no[t.id] = 'NONE'
+      return
     if isinstance(t, ast.Call) and isinstance(t.func, ast.Name) and t.func.id == 'isinstance' and len(t.args) == 2 and \
        isinstance(t.args[0], ast.Name):
       v = t.args[0].id
@@ -389,6 +465,10 @@ class Effects(object):
     if isinstance(tgt, ast.Name):
       env[tgt.id] = kind
       return
+    if isinstance(kind, Opt) or kind == 'NONE':
+      if isinstance(tgt, (ast.Tuple, ast.List)) and is_wire(kind):
+        R.append(Raised('TypeError', fn, at, 'unpacking a value that may be None'))
+      kind = degrade(kind) if kind == 'NONE' else kind.k
     if isinstance(tgt, ast.Starred):
       self.bind(tgt.value, 'WO' if is_wire(kind) else 'TR', env, R, at, fn)
       return
@@ -430,7 +510,13 @@ class Effects(object):
     # attribute targets: trusted receivers only
 
   # ------------------------------------------------------------ expressions
-  def ev(self, n, env, fn, at=None):
+  def ev(self, n, env, fn, at=None, keep_opt=False):
+    k, R = self._ev(n, env, fn, at)
+    if not keep_opt:
+      k = degrade(k)
+    return k, R
+
+  def _ev(self, n, env, fn, at=None):
     R = []
     at = at or n
 
@@ -438,6 +524,8 @@ class Effects(object):
       k, r = self.ev(x, env, fn)
       R.extend(r)
       return k
+    if isinstance(n, ast.Constant) and n.value is None:
+      return 'NONE', R
     if n is None or isinstance(n, ast.Constant):
       return 'TR', R
     if isinstance(n, ast.Name):
@@ -541,7 +629,11 @@ class Effects(object):
       return 'WS' if any(isinstance(v, ast.FormattedValue) and is_wire(self.ev(v.value, env, fn)[0]) for v in n.values) else 'TR', R
     if isinstance(n, ast.IfExp):
       sub(n.test)
-      return join(sub(n.body), sub(n.orelse)), R
+      kb, rb_ = self.ev(n.body, env, fn, keep_opt=True)
+      ko, ro_ = self.ev(n.orelse, env, fn, keep_opt=True)
+      R.extend(rb_)
+      R.extend(ro_)
+      return join(kb, ko), R
     if isinstance(n, ast.Lambda):
       return 'TR', R
     if isinstance(n, (ast.ListComp, ast.SetComp, ast.GeneratorExp, ast.DictComp)):
@@ -791,6 +883,36 @@ class Effects(object):
       if isinstance(recv, tuple):
         R.append(Raised('TOP', fn, n, 'method .%s() on a tuple of wire data' % m))
         return 'WO', R
+      if isinstance(f.value, ast.Constant) and isinstance(f.value.value, str):
+        tpl = f.value.value
+        if m == 'format':
+          import string
+          try:
+            fields = [(fname, spec, conv) for _, fname, spec, conv in string.Formatter().parse(tpl) if fname is not None]
+          except ValueError:
+            fields = None
+          if fields is not None and all(not spec and '.' not in fname and '[' not in fname for fname, spec, conv in fields):
+            # '{}' / '{0}' / '{name}' without a format spec: str() of the argument, total for every kind
+            return ('WS' if tainted else 'TR'), R
+          if tainted:
+            R.append(Raised('ValueError', fn, n, 'str.format with a format spec / attribute lookup applied to wire data'))
+            R.append(Raised('TypeError', fn, n, 'str.format with a format spec / attribute lookup applied to wire data'))
+            R.append(Raised('AttributeError', fn, n, 'str.format with a format spec / attribute lookup applied to wire data'))
+          return ('WS' if tainted else 'TR'), R
+        if m == 'join' and len(args) == 1:
+          a0 = args[0]
+          if a0 in ('WSL',) or (isinstance(a0, tuple) and all(k in ('WS', 'TR') for k in a0[1:])):
+            return 'WS', R
+          if is_wire(a0):
+            R.append(Raised('TypeError', fn, n, 'str.join over wire items that are not known to be text'))
+            return 'WS', R
+          return 'TR', R
+    # ---- math predicates
+    if name in ('math.isnan', 'math.isinf', 'math.isfinite', 'isnan', 'isinf', 'isfinite') and len(args) == 1:
+      a0 = args[0]
+      if a0 in ('WS', 'WB', 'WSB', 'WO', 'WOL', 'WSL', 'WBL') or isinstance(a0, tuple):
+        R.append(Raised('TypeError', fn, n, '%s(<non-numeric wire value>)' % name))
+      return 'TR', R
     # ---- deserialisers and other opaque externals fed with wire data
     last = name.split('.')[-1]
     if last in ('loads', 'load', 'FromString', 'ParseFromString') and tainted:
@@ -799,9 +921,10 @@ class Effects(object):
     # ---- repository functions (resolved through the type-based call graph)
     cs, how = self.cx.callees(n, fn)
     if how == 'resolved' and cs:
-      out_kind = 'TR'
+      rks = []
       for callee, via in cs:
         if callee.module.name in TRUSTED_MODULES:
+          rks.append('TR')
           continue
         kinds = list(args)
         if via in ('method', 'ctor', 'event') and callee.cls is not None and not callee.is_staticmethod:
@@ -809,7 +932,14 @@ class Effects(object):
                   self._is_class_ref(f.value, fn)):
             kinds = ['TR'] + kinds
         R.extend(self._via(self.analyse(callee, kinds), fn, n))
-      return ('WO' if tainted else out_kind), R
+        rks.append('TR' if via == 'ctor' else self.return_kind(callee, kinds))
+      if tainted and any(k is None for k in rks):
+        return 'WO', R           # result of a generator / recursive / depth-limited callee fed with wire data
+      out_kind = None
+      for k in rks:
+        if k is not None:
+          out_kind = join(out_kind, k)
+      return ('TR' if out_kind is None else out_kind), R
     if name.startswith(TRUSTED_CALL_PREFIXES):
       return 'TR', R
     if isinstance(f, ast.Attribute) and isinstance(f.value, ast.Name) and f.value.id == 'self' and f.attr in TRUSTED_SELF_METHODS:
